@@ -47,8 +47,10 @@ def ensure_deps():
         if r.returncode != 0:
             print('HARNESS-ERROR cannot install mpmath:\n' + r.stdout)
             return False
-    if (os.environ.get('VERIF_WANT_ATHERIS')
+    if (not os.environ.get('VERIF_NO_ATHERIS')
             and not os.path.isdir(os.path.join(DEPS, 'atheris'))):
+        # best effort: without it the coverage-guided shards report
+        # 'skipped_no_atheris' and the random tiers decide alone
         r = _pip(['--target', DEPS, 'atheris'])
         if r.returncode != 0:
             print('NOTE atheris not installable; coverage-guided tier skipped')
